@@ -39,10 +39,13 @@ import numpy as np
 from vlib.hx import Res, rng_for, tiny_atoms
 
 PROPERTY = "C38"
-RULE = ("pairwise covering arrays over {fft backend, planning effort, precision, history (none / other precision first / "
-        "other backend first)} x per family: 'kernel' {function, shape (odd/even/degenerate/batched), input kind (numpy, "
-        "dask), overwrite_x}; 'sim' {pipeline, lazy, grid, structure}; 'transform' {transform, grid, batch, lazy}; data "
-        "and structures from the case seed. Non-trivial = reference output not constant/zero; distinct = distinct case dicts")
+RULE = ("'kernel': full product {function x backend x precision} plus a pairwise covering array over {backend, planning "
+        "effort, precision, history (none / other precision first / other backend first), function, shape (odd / even / "
+        "degenerate), batch, input kind (numpy, dask blocks, later member of a stack), overwrite_x}; 'sim' and 'transform': "
+        "full product {pipeline or transform x precision x planning effort}, every case runs fftw AND numpy at that "
+        "precision plus one backend at the other precision; lazy, grid, structure, batch, history seeded (thorough: plus "
+        "pairwise covering arrays). Data and structures from the case seed. Non-trivial = reference output not zero; "
+        "distinct = distinct case dicts")
 BOUNDS = {
     "fft": ["numpy", "fftw"],
     "planning_effort": {"quick": ["FFTW_ESTIMATE", "FFTW_MEASURE", "FFTW_PATIENT"],
@@ -77,45 +80,77 @@ _KERNELS = ["fft2", "ifft2", "fftn_all", "ifftn_all", "fft2_convolve", "fft2_con
             "fftn_subaxes", "ifftn_subaxes", "cached_convolution"]
 _PIPELINES_Q = ["exit", "hrtem", "diffraction", "stem", "prism", "cbed_series"]
 _TRANSFORMS = ["diffraction_patterns", "downsample", "apply_ctf", "reciprocal_roundtrip", "images_interpolate",
-               "fft_interpolate_3d", "bandlimit", "propagate", "fft_shift"]
+               "fft_interpolate_3d", "bandlimit", "propagate", "fft_shift", "member_in_place"]
+
+
+def _fill(rows, axes, r):
+    """complete partial rows with seeded random values for the axes they do not fix"""
+    out = []
+    for row in rows:
+        full = dict(row)
+        for k, vals in axes.items():
+            if k not in full:
+                full[k] = vals[int(r.integers(len(vals)))]
+        out.append(full)
+    return out
 
 
 def cases(tier, seed):
+    import itertools
+
     from vlib.hx import covering
 
     efforts = BOUNDS["planning_effort"][tier]
     extra = BOUNDS["extra_random"][tier]
-    cfg_axes = dict(fft=BOUNDS["fft"], effort=efforts, precision=BOUNDS["precision"],
-                    history=["none", "other_precision", "other_backend"])
+    hist = ["none", "other_precision", "other_backend"]
 
-    rows = covering(dict(cfg_axes, kernel=_KERNELS, shape=list(range(len(BOUNDS["shapes"]))), batch=[0, 1, 3],
-                         input=["numpy", "dask"], overwrite_x=[False, True]), seed=seed + 21, extra_random=extra["kernel"])
+    # ---- kernels: full product kernel x backend x precision, the remaining axes pairwise + seeded
+    axes = dict(fft=BOUNDS["fft"], effort=efforts, precision=BOUNDS["precision"], history=hist, kernel=_KERNELS,
+                shape=list(range(len(BOUNDS["shapes"]))), batch=[0, 1, 3], input=["numpy", "dask", "view"],
+                overwrite_x=[False, True])
+    rows = [dict(kernel=k, fft=f, precision=p) for k, f, p in itertools.product(_KERNELS, BOUNDS["fft"], BOUNDS["precision"])]
+    rows = _fill(rows, axes, rng_for(seed, "kernel-fill")) + covering(axes, seed=seed + 21, extra_random=extra["kernel"])
+    # the alignment corner: later member of an odd-sized single-precision stack, transformed in place
+    rows += [dict(fft=f, effort="FFTW_MEASURE", precision="float32", history="none", kernel=k, shape=1, batch=3,
+                  input="view", overwrite_x=True) for f in BOUNDS["fft"] for k in ("fft2", "fft2_convolve")]
     for i, row in enumerate(rows):
         r = rng_for(seed, "kernel", i)
         yield dict(mode="kernel", fft=row["fft"], effort=row["effort"], precision=row["precision"], history=row["history"],
                    kernel=row["kernel"], shape=list(BOUNDS["shapes"][row["shape"]]), batch=row["batch"], input=row["input"],
                    overwrite_x=row["overwrite_x"], seed=int(r.integers(1 << 30)))
 
-    pipes = _PIPELINES_Q + (["realspace"] if tier == "thorough" else [])
-    rows = covering(dict(cfg_axes, pipeline=pipes, lazy=[False, True], gpts=[0, 1, 2], structure=["si", "two", "random"]),
-                    seed=seed + 22, extra_random=extra["sim"])
-    if tier == "quick":  # one real-space run so that the obligation family is exercised on that path too
-        rows.append(dict(fft="fftw", effort="FFTW_MEASURE", precision="float32", history="none", pipeline="realspace",
-                         lazy=False, gpts=0, structure="two"))
+    # ---- simulations: every pipeline x precision x planning effort (each case runs BOTH backends)
+    pipes = _PIPELINES_Q + ["realspace"]
+    axes = dict(pipeline=pipes, precision=BOUNDS["precision"], effort=efforts, history=hist, lazy=[False, True],
+                gpts=[0, 1, 2], structure=["si", "two", "random"], sd_backend=BOUNDS["fft"])
+    prod_pipes = _PIPELINES_Q if tier == "quick" else pipes
+    rows = [dict(pipeline=a, precision=b, effort=c) for a, b, c in itertools.product(prod_pipes, BOUNDS["precision"], efforts)]
+    rows = _fill(rows, axes, rng_for(seed, "sim-fill"))
+    if tier == "quick":  # the real-space path costs a numba compilation per run: two cases only
+        rows += _fill([dict(pipeline="realspace", precision=p, effort="FFTW_MEASURE", lazy=False, gpts=0, structure="two")
+                       for p in BOUNDS["precision"]], axes, rng_for(seed, "sim-fill-rs"))
+    else:
+        rows += covering(axes, seed=seed + 22, extra_random=extra["sim"])
     for i, row in enumerate(rows):
         r = rng_for(seed, "sim", i)
-        yield dict(mode="sim", fft=row["fft"], effort=row["effort"], precision=row["precision"], history=row["history"],
-                   pipeline=row["pipeline"], lazy=row["lazy"], gpts=list(BOUNDS["sim_gpts"][row["gpts"]]),
-                   structure=row["structure"], energy=float(round(r.uniform(6e4, 2e5), 1)),
-                   size=float(round(r.uniform(3.6, 4.4), 3)), height=float(round(r.uniform(2.0, 4.0), 3)),
-                   slice_thickness=float(round(r.uniform(0.5, 1.5), 3)), seed=int(r.integers(1 << 30)))
+        yield dict(mode="sim", effort=row["effort"], precision=row["precision"], history=row["history"],
+                   sd_backend=row["sd_backend"], pipeline=row["pipeline"], lazy=row["lazy"],
+                   gpts=list(BOUNDS["sim_gpts"][row["gpts"]]), structure=row["structure"],
+                   energy=float(round(r.uniform(6e4, 2e5), 1)), size=float(round(r.uniform(3.6, 4.4), 3)),
+                   height=float(round(r.uniform(2.0, 4.0), 3)), slice_thickness=float(round(r.uniform(0.5, 1.5), 3)),
+                   seed=int(r.integers(1 << 30)))
 
-    rows = covering(dict(cfg_axes, transform=_TRANSFORMS, gpts=[0, 1, 2, 3], batch=[0, 2], lazy=[False, True]),
-                    seed=seed + 23, extra_random=extra["transform"])
+    # ---- measurement / wave transforms: every transform x precision x effort (both backends per case)
+    axes = dict(transform=_TRANSFORMS, precision=BOUNDS["precision"], effort=efforts, history=hist, gpts=[0, 1, 2, 3],
+                batch=[0, 2, 3], lazy=[False, True], sd_backend=BOUNDS["fft"])
+    rows = [dict(transform=a, precision=b, effort=c) for a, b, c in itertools.product(_TRANSFORMS, BOUNDS["precision"], efforts)]
+    rows = _fill(rows, axes, rng_for(seed, "transform-fill"))
+    if tier != "quick":
+        rows += covering(axes, seed=seed + 23, extra_random=extra["transform"])
     for i, row in enumerate(rows):
         r = rng_for(seed, "transform", i)
-        yield dict(mode="transform", fft=row["fft"], effort=row["effort"], precision=row["precision"],
-                   history=row["history"], transform=row["transform"], gpts=list(BOUNDS["shapes"][row["gpts"]]),
+        yield dict(mode="transform", effort=row["effort"], precision=row["precision"], history=row["history"],
+                   sd_backend=row["sd_backend"], transform=row["transform"], gpts=list(BOUNDS["shapes"][row["gpts"]]),
                    batch=row["batch"], lazy=row["lazy"], energy=float(round(r.uniform(6e4, 3e5), 1)),
                    sampling=float(round(r.uniform(0.05, 0.2), 4)), seed=int(r.integers(1 << 30)))
 
@@ -221,6 +256,12 @@ def _kernel_call(case, x, ker):
 
     k = case["kernel"]
     arg = x
+    if case["input"] == "view":
+        # the way abTEM hands ensemble members around: a later member of a larger stack (a view whose byte offset is a
+        # multiple of the item size only)
+        stack = np.empty((2,) + x.shape, x.dtype)
+        stack[1] = x
+        arg = stack[1]
     if case["input"] == "dask" and k != "cached_convolution":
         if k in ("fft2", "ifft2", "fft2_convolve", "fft2_convolve_realkernel") and x.ndim > 2:
             arg = da.from_array(x, chunks=(1,) * (x.ndim - 2) + (-1, -1))
@@ -424,6 +465,17 @@ def _transform(case, precision):
         w2 = p.propagate(w2, 1.7, in_place=True, order=1)  # same propagator object, new array, in place
         w3 = p.propagate(w2, -0.6, in_place=True, order=2)
         return [a1, np.array(w3.array)]
+    if name == "member_in_place":
+        # second member of an eager ensemble, transformed with the public in-place switches
+        from abtem.multislice import FresnelPropagator
+
+        nb = max(case["batch"], 2)
+        zz = (rng.normal(size=(nb,) + gpts) + 1j * rng.normal(size=(nb,) + gpts)).astype(_cdtype(precision))
+        ens = abtem.Waves(zz.copy(), energy=E, sampling=samp, ensemble_axes_metadata=[OrdinalAxis(values=tuple(range(nb)))])
+        k = ens[1].ensure_reciprocal_space(overwrite_x=True)
+        ens2 = abtem.Waves(zz.copy(), energy=E, sampling=samp, ensemble_axes_metadata=[OrdinalAxis(values=tuple(range(nb)))])
+        pr = FresnelPropagator().propagate(ens2[nb - 1], 2.1, in_place=True)
+        return [np.array(k.array), np.array(pr.array)]
     # fft_shift
     from abtem.core.fft import fft_shift
 
@@ -435,29 +487,32 @@ def _transform(case, precision):
 
 
 def _run_cross_config(case, family, fn):
-    """fn(precision) -> list of arrays, evaluated under the active abTEM configuration"""
+    """fn(precision) -> list of arrays, evaluated under the active abTEM configuration.
+    Runs fftw and numpy at the case precision, and one backend at the other precision."""
     import abtem
 
-    fft, eff, prec = case["fft"], case["effort"], case["precision"]
+    eff, prec = case["effort"], case["precision"]
     if case["history"] != "none":
         hp = _other(prec) if case["history"] == "other_precision" else prec
-        hf = ("numpy" if fft == "fftw" else "fftw") if case["history"] == "other_backend" else fft
+        hf = "numpy" if case["history"] == "other_backend" else "fftw"
         with abtem.config.set(_cfg(hf, "FFTW_ESTIMATE", hp)):
             fn(hp)
-    with abtem.config.set(_cfg(fft, eff, prec)):
+    with abtem.config.set(_cfg("fftw", eff, prec)):
         got = fn(prec)
     with abtem.config.set(_cfg("numpy", eff, prec)):
         ref = fn(prec)
     what = case.get("pipeline") or case.get("transform")
     ok, detail, nt = _compare(got, ref, TOL[prec])
     out = [Res(f"C38/{family}/backend-independent", ok,
-               f"{what} under {_cfg(fft, eff, prec)} (history {case['history']}) vs fft=numpy same precision: {detail}", nt)]
-    with abtem.config.set(_cfg(fft, eff, _other(prec))):
+               f"{what}: fft=fftw/{eff} vs fft=numpy, both precision={prec} (history {case['history']}): {detail}", nt)]
+    sdb = case["sd_backend"]
+    with abtem.config.set(_cfg(sdb, eff, _other(prec))):
         alt = fn(_other(prec))
-    a32, a64 = (got, alt) if prec == "float32" else (alt, got)
+    same = got if sdb == "fftw" else ref
+    a32, a64 = (same, alt) if prec == "float32" else (alt, same)
     ok, detail, nt = _compare(a32, a64, TOL_SD)
     out.append(Res(f"C38/{family}/double-vs-single", ok,
-                   f"{what}, fft={fft}/{eff}: float32 run vs float64 run: {detail}", nt))
+                   f"{what}, fft={sdb}/{eff}: float32 run vs float64 run: {detail}", nt))
     return out
 
 
